@@ -173,3 +173,28 @@ CONFIG["C10"] = dict(
     level_note="Lean kernel + correspondence; crypto operations are an abstract record in the theorems, BLS12-381 in the driver",
     assumptions=["reuse of an instance after End is outside the property"],
 )
+
+_DKG_RULE = ("full protocol executions with a deterministic in-process scheduler: honest participants run the real code, Byzantine ones are scripted; (n,t) in {(3,1),(4,1),(4,2),(5,2)} "
+             "(thorough adds (7,3),(2,1)); up to t Byzantine participants; per receiver share kinds {ok, omitted, bad tag, wrong size, zero, >= r, wrong value, late, duplicate, empty}; vector kinds "
+             "{ok, omitted, late, wrong size, bad point, outside G2 (built by the model), duplicate, two different}; answers {ok, omitted, wrong, wrong size, bad complainer, zero, duplicate, late, before any complaint}; "
+             "extras {empty broadcast, bad tag, malformed complaint, complaint with big index, complaint about self, unsolicited answer, spurious complaint against an honest dealer}; random delivery order among all "
+             "admissible interleavings (per-sender FIFO per channel, messages triggered by deliveries land in the same round); every honest node's complete call line is replayed by the model (messages byte for byte, callbacks, End result) "
+             "and the property predicates (agreement on verdict/keys/disqualified sets, private share matches public share, t+1 shares sign for the group key, no honest participant blamed, bad dealers disqualified, plain Feldman never keys on bad vector/share) are evaluated on the real run")
+
+CONFIG["C07"] = dict(
+    lean_modules=["Props.C07"], generators=["C07"], level="proof", rule=_DKG_RULE, trusted_base=BLS_TB,
+    technique="Lean 4 proof (shape of End results over the state-machine models) + differential run of every honest node + agreement predicates on real executions",
+    level_text="Theorems for every state: Qual End returns keys only when not disqualified, no complaint unanswered, keys = those of the stored valid vector, share non-zero; the End verdict is a function of (disqualified, complaints, vector, share); Joint End fails beyond t disqualified dealers. "
+               "Network-level agreement between two honest receivers is NOT yet a theorem (partial): it is exercised by randomized schedules against the model and predicates.",
+    level_note="Lean kernel + correspondence; reliable broadcast and round synchrony are assumptions of the property, implemented by the scheduler",
+    assumptions=["reliable broadcast, round-synchronous delivery, at most t Byzantine participants"],
+)
+CONFIG["C08"] = dict(
+    lean_modules=["Props.C08"], generators=["C08"], level="proof", rule=_DKG_RULE, trusted_base=BLS_TB,
+    technique="Lean 4 proof (blame targets, monotone disqualification, fault => disqualification lemmas, plain Feldman VSS invariant) + differential run + fairness predicates on real executions",
+    level_text="Theorems for every state and message: an instance only ever blames the sender of the handled message or its dealer; timeouts/End only blame the dealer; disqualification is monotone and makes End fail; "
+               "unanswered complaint, > t complaints, missing / late / malformed vector each disqualify; plain Feldman VSS returns keys only with a valid stored vector and a share passing the check against it (invariant over all call sequences of a non-dealer). "
+               "That honest senders never trigger the blame branches in every schedule is exercised by the runs, not yet a theorem (partial).",
+    level_note="Lean kernel + correspondence",
+    assumptions=["reliable broadcast, round-synchronous delivery, at most t Byzantine participants"],
+)
